@@ -60,6 +60,24 @@ function buildThrow(mod, spec) {
       return new mod.ApiError(spec.statusCode ?? 500, spec.message ?? "api", spec.body ?? "");
     case "string":
       return spec.message ?? "thrown string";
+    case "foreign-validation-error": {
+      // what validation libraries throw: an Error of ANOTHER class that is also called ValidationError
+      class ValidationError extends Error {
+        constructor(m) { super(m); this.name = "ValidationError"; this.errors = ["x is required"]; }
+      }
+      return new ValidationError(spec.message ?? "foreign validation failed");
+    }
+    case "named-like-api-error": {
+      const e = new Error(spec.message ?? "looks like an ApiError");
+      e.name = "ApiError"; e.statusCode = 404; e.body = "{}";
+      return e;
+    }
+    case "type-error":
+      return new TypeError(spec.message ?? "x is not a function");
+    case "object":
+      return { message: spec.message ?? "plain object thrown", code: 7 };
+    case "null":
+      return null;
     default:
       return new Error(spec.message ?? "handler failed");
   }
